@@ -9,6 +9,8 @@ N1t try: v = X.a  except AttributeError: v = D           ->  v = getattr(X, "a",
 N2  M[k] if k in M else D                                ->  M.get(k, D)                 (k, M plain names/attribute chains/constants)
 N2s if k in M: v = M[k]  else: v = D                     ->  v = M.get(k, D)
 N3  "..{}..{}..".format(a, b)   (only {} / {0} fields)   ->  f"..{a}..{b}.."
+N5  return A if c else B                                 ->  if c: return A  else: return B
+N6  d = {}; d["a"] = x; d["b"] = y   (consecutive)         ->  d = {"a": x, "b": y}
 N4  match S: case C(): … case "x": … case _: …           ->  if isinstance(S, C): … elif S == "x": … else: …
     (class patterns without sub-patterns, value/singleton patterns, or-patterns of those, bare wildcard; anything that
      binds a name is left as it is)
@@ -127,6 +129,17 @@ class Normalizer(ast.NodeTransformer):
         return n
 
     # ---- statements
+    def visit_Return(self, n: ast.Return):
+        self.generic_visit(n)
+        if isinstance(n.value, ast.IfExp):
+            # N5: `return A if c else B`  ->  if c: return A / else: return B   (c is evaluated once, then one arm: identical)
+            self.count += 1
+            a = ast.copy_location(ast.Return(value=n.value.body), n)
+            b = ast.copy_location(ast.Return(value=n.value.orelse), n)
+            node = ast.If(test=n.value.test, body=[a], orelse=[b])
+            return ast.fix_missing_locations(ast.copy_location(node, n))
+        return n
+
     def visit_If(self, n: ast.If):
         self.generic_visit(n)
         a, b = _single_assign(n.body), _single_assign(n.orelse)
@@ -212,9 +225,44 @@ class Normalizer(ast.NodeTransformer):
         return False
 
 
+def _merge_dict_steps(stmts: List[ast.stmt]) -> int:
+    """N6: `d = {…}` immediately followed by `d["k"] = v` statements  ->  one display `d = {…, "k": v}`
+    (same evaluation order; only while the stored values do not mention `d` and the keys are constants)."""
+    n = 0
+    i = 0
+    while i < len(stmts):
+        s = stmts[i]
+        name = None
+        if isinstance(s, ast.Assign) and len(s.targets) == 1 and isinstance(s.targets[0], ast.Name) and isinstance(s.value, ast.Dict):
+            name = s.targets[0].id
+        elif isinstance(s, ast.AnnAssign) and isinstance(s.target, ast.Name) and isinstance(s.value, ast.Dict):
+            name = s.target.id
+        if name is not None and all(k is not None for k in s.value.keys):
+            j = i + 1
+            while j < len(stmts):
+                t = stmts[j]
+                if (isinstance(t, ast.Assign) and len(t.targets) == 1 and isinstance(t.targets[0], ast.Subscript) and isinstance(t.targets[0].value, ast.Name)
+                        and t.targets[0].value.id == name and isinstance(t.targets[0].slice, ast.Constant)
+                        and not any(isinstance(x, ast.Name) and x.id == name for x in ast.walk(t.value))
+                        and not any(isinstance(k, ast.Constant) and k.value == t.targets[0].slice.value for k in s.value.keys)):
+                    s.value.keys.append(t.targets[0].slice)
+                    s.value.values.append(t.value)
+                    del stmts[j]
+                    n += 1
+                    continue
+                break
+        i += 1
+    return n
+
+
 def normalize(tree: ast.Module) -> int:
     nz = Normalizer()
     nz.visit(tree)
+    for node in ast.walk(tree):
+        for field in ("body", "orelse", "finalbody"):
+            v = getattr(node, field, None)
+            if isinstance(v, list) and v and isinstance(v[0], ast.stmt):
+                nz.count += _merge_dict_steps(v)
     if nz.count:
         ast.fix_missing_locations(tree)
     return nz.count
